@@ -12,5 +12,7 @@ for c in $checks; do
   if echo "$out" | grep -q "^VIOLATION"; then res="$res $c:CAUGHT"; cp -f replays/$c-violation-1.json "seeded/$d/replay-$c.json" 2>/dev/null; else res="$res $c:pass"; fi
 done
 git -C /repo checkout -- .
+# what the run wrote from the patched tree must not stay: the generated level table and the evidence files
+git -C /verif checkout -- evidence lean/MechVerif/Gen 2>/dev/null
 rm -f replays/*-violation-1.json
 echo "RESULT $d:$res"
